@@ -67,6 +67,26 @@ def gen_comb(rng, nmax, widen=False, start=None):
     return {'style': style, 'f': fs, 'b': bs, 'slot': ss, 'p_dbm': ps}
 
 
+def _table(rng, freqs, values):
+    """a per-frequency table listed in ascending, descending (= increasing wavelength) or shuffled frequency order"""
+    order = rng.choice(['ascending', 'descending', 'descending', 'shuffled', 'shuffled'])
+    idx = list(range(len(freqs)))
+    if order == 'descending':
+        idx.reverse()
+    elif order == 'shuffled':
+        rng.shuffle(idx)
+    return {'value': [values[i] for i in idx], 'frequency': [freqs[i] for i in idx]}
+
+
+def table_order(t):
+    f = t['frequency']
+    if all(a < b for a, b in zip(f, f[1:])):
+        return 'ascending'
+    if all(a > b for a, b in zip(f, f[1:])):
+        return 'descending'
+    return 'shuffled'
+
+
 def gen_fibre(rng, f_lo, f_hi, widen=False, lumped=True):
     """FiberParams keyword arguments (JSON-serialisable). [f_lo, f_hi] = band the tables must cover."""
     p = {}
@@ -83,7 +103,7 @@ def gen_fibre(rng, f_lo, f_hi, widen=False, lumped=True):
         nk = rng.randint(2, 6)
         lo, hi = f_lo - rng.choice([0, 1e9, 1e12]), f_hi + rng.choice([0, 1e9, 2e12])
         freqs = [lo + (hi - lo) * i / (nk - 1) for i in range(nk)]
-        p['loss_coef'] = {'value': [round(rng.uniform(0.15, 0.35), 4) for _ in range(nk)], 'frequency': freqs}
+        p['loss_coef'] = _table(rng, freqs, [round(rng.uniform(0.15, 0.35), 4) for _ in range(nk)])
     else:
         p['loss_coef'] = round(rng.uniform(0.15, 0.35), 4)
     # reference
@@ -100,12 +120,12 @@ def gen_fibre(rng, f_lo, f_hi, widen=False, lumped=True):
         nk = rng.randint(2, 5)
         lo, hi = f_lo - 1e12, f_hi + 1e12
         freqs = [lo + (hi - lo) * i / (nk - 1) for i in range(nk)]
-        p['dispersion_per_frequency'] = {'value': [sign * round(rng.uniform(3e-6, 2.3e-5), 9) for _ in range(nk)],
-                                         'frequency': freqs}
+        p['dispersion_per_frequency'] = _table(rng, freqs, [sign * round(rng.uniform(3e-6, 2.3e-5), 9) for _ in range(nk)])
     else:
         p['dispersion'] = sign * rng.choice([1.67e-5, 4e-6, 2.1e-5, round(rng.uniform(2e-6, 2.3e-5), 9)])
         if k < 0.55:
-            slope = rng.choice([58.0, 70.0, 90.0, -58.0])
+            # 0.0 is a GIVEN slope (constant D(lambda) law), not an absent one ((f/f_ref)^2 law)
+            slope = rng.choice([58.0, 70.0, 90.0, -58.0, 0.0, 0.0, 0.0, 1e-3, -1e-3, 2.0])
             d_lo = p['dispersion'] + slope * (C / f_lo - C / f_ref)
             d_hi = p['dispersion'] + slope * (C / f_hi - C / f_ref)
             if d_lo * d_hi > 0 and min(abs(d_lo), abs(d_hi)) > 1e-6:
@@ -168,6 +188,7 @@ def fibre_json(p):
 # ---------------------------------------------------------------------------------------------------------------------
 
 def _lin_interp(x, xs, ys):
+    xs, ys = zip(*sorted(zip(xs, ys)))        # tables may be listed in any frequency order
     if x < xs[0] or x > xs[-1]:
         raise ValueError('outside table')
     for k in range(len(xs) - 1):
